@@ -90,6 +90,76 @@ def utv(rng, n):
     return [rat(F(rng.randint(0, 200), 64)) for _ in range(n * (n - 1) // 2)]
 
 
+def load_case(rng, form, sort, n, n_part=None, skip=None, mismatch=None):
+    """one supported Meadows file: 'mat1' single participant .mat, 'matN' multi participant .mat,
+    'json' single participant multi task .json; skip / mismatch force an info task / a
+    multi-arrangement task with other stimuli into the json"""
+    if form == 'mat1':
+        name, info = make_name(rng, 'A', 'mat')
+        stim = stimuli(rng, n)
+        u = utv(rng, n)
+        vars_ = [['stimuli', {'strs': stim}], ['rdmutv', {'nums': [u]}]]
+        rng.shuffle(vars_)
+        return {'kind': 'meadows_load', 'fname': name, 'vars': vars_, 'sort': sort, 'form': 'mat1',
+                'expect': {'experiment': info['experiment_name'], 'stimuli': stim,
+                           'rows': [{'participant': info['participant'], 'task': None,
+                                     'task_index': info['task_index'], 'utv': u}]}}
+    if form == 'matN':
+        name, info = make_name(rng, 'C', 'mat')
+        stim = stimuli(rng, n)
+        ps = []
+        want = n_part or rng.randint(1, 4)
+        while len(ps) < want:
+            p = participant(rng)
+            if p not in ps:
+                ps.append(p)
+        rows = [{'participant': p, 'task': info['task_name'], 'task_index': None, 'utv': utv(rng, n)}
+                for p in ps]
+        svars = [['stimuli_' + p.replace('-', '_'), {'strs': stim}] for p in ps]
+        uvars = [['rdmutv_' + r_['participant'].replace('-', '_'), {'nums': [r_['utv']]}] for r_ in rows]
+        rng.shuffle(uvars)
+        vars_ = uvars[:1] + svars + uvars[1:]
+        return {'kind': 'meadows_load', 'fname': name, 'vars': vars_, 'sort': sort, 'form': 'matN',
+                'expect': {'experiment': info['experiment_name'], 'stimuli': stim, 'rows': rows}}
+    name, info = make_name(rng, 'B', 'json')
+    stim = stimuli(rng, n)
+    if rng.random() < 0.3:
+        stim[0] = 'é' + stim[0]
+    tasks, rows = [], []
+    n_tasks = rng.randint(1, 5)
+    plan = []
+    for t in range(n_tasks):
+        r = rng.random()
+        plan.append('info' if r < 0.3 else 'other' if r < 0.4 else 'ma')
+    if skip is True:
+        plan = ['info'] + plan
+    if skip is False:
+        plan = [x for x in plan if x != 'info'] or ['ma']
+    if mismatch is True:
+        plan = plan + ['ma', 'other', 'ma']
+    if mismatch is False:
+        plan = [x for x in plan if x != 'other'] or ['ma']
+    for t, what in enumerate(plan):
+        tn = token(rng)
+        if what == 'info':
+            tasks.append({'task_type': rng.choice(['info', 'survey', None]), 'name': tn,
+                          'stimuli': [], 'rdm': []})
+        elif what == 'other' and rows:    # other stimuli: skipped with a warning
+            tasks.append({'task_type': 'multiarrange', 'name': tn,
+                          'stimuli': stimuli(rng, n) + ['extra.png'], 'rdm': utv(rng, n + 1)})
+        else:
+            u = utv(rng, n)
+            tasks.append({'task_type': 'multiarrange', 'name': tn, 'stimuli': stim, 'rdm': u})
+            rows.append({'participant': info['participant'], 'task': tn, 'task_index': t, 'utv': u})
+    if not rows:
+        u = utv(rng, n)
+        tasks.append({'task_type': 'multiarrange', 'name': 'ma', 'stimuli': stim, 'rdm': u})
+        rows.append({'participant': info['participant'], 'task': 'ma',
+                     'task_index': len(tasks) - 1, 'utv': u})
+    return {'kind': 'meadows_load', 'fname': name, 'tasks': tasks, 'sort': sort, 'form': 'json',
+            'expect': {'experiment': info['experiment_name'], 'stimuli': stim, 'rows': rows}}
+
+
 def gen(rng, tier):
     k = 1 if tier == 'quick' else 25
     # --- names
@@ -101,63 +171,17 @@ def gen(rng, tier):
             yield {'kind': 'meadows_name', 'fpath': pre + name, 'shape': shape, 'expect': info}
     for n in BAD_NAMES:
         yield {'kind': 'meadows_name', 'fpath': n, 'shape': 'bad'}
-    # --- files
+    # --- files: directed skeleton first (every load:* tag whatever the PRNG draws), then random
+    for form, sort, n, kw in (('mat1', True, 3, {}), ('mat1', False, 2, {}),
+                              ('matN', True, 4, {'n_part': 3}), ('matN', False, 2, {'n_part': 2}),
+                              ('matN', True, 2, {'n_part': 1}),
+                              ('json', True, 3, {'skip': True, 'mismatch': True}),
+                              ('json', False, 2, {'skip': False, 'mismatch': False})):
+        yield load_case(rng, form, sort, n, **kw)
     for _ in range(14 * k):
-        n = rng.randint(2, 6)
-        sort = rng.random() < 0.6
         r = rng.random()
-        if r < 0.3:      # single participant, single task, .mat
-            name, info = make_name(rng, 'A', 'mat')
-            stim = stimuli(rng, n)
-            vars_ = [['stimuli', {'strs': stim}], ['rdmutv', {'nums': [utv(rng, n)]}]]
-            rng.shuffle(vars_)
-            yield {'kind': 'meadows_load', 'fname': name, 'vars': vars_, 'sort': sort, 'form': 'mat1',
-                   'expect': {'experiment': info['experiment_name'], 'stimuli': stim,
-                              'rows': [{'participant': info['participant'], 'task': None,
-                                        'task_index': info['task_index'],
-                                        'utv': vars_[[v[0] for v in vars_].index('rdmutv')][1]['nums'][0]}]}}
-        elif r < 0.65:   # several participants, single task, .mat
-            name, info = make_name(rng, 'C', 'mat')
-            stim = stimuli(rng, n)
-            ps = []
-            while len(ps) < rng.randint(1, 4):
-                p = participant(rng)
-                if p not in ps:
-                    ps.append(p)
-            rows = [{'participant': p, 'task': info['task_name'], 'task_index': None, 'utv': utv(rng, n)}
-                    for p in ps]
-            svars = [['stimuli_' + p.replace('-', '_'), {'strs': stim}] for p in ps]
-            uvars = [['rdmutv_' + r_['participant'].replace('-', '_'), {'nums': [r_['utv']]}] for r_ in rows]
-            rng.shuffle(uvars)
-            vars_ = uvars[:1] + svars + uvars[1:]
-            yield {'kind': 'meadows_load', 'fname': name, 'vars': vars_, 'sort': sort, 'form': 'matN',
-                   'expect': {'experiment': info['experiment_name'], 'stimuli': stim, 'rows': rows}}
-        else:            # single participant, several tasks, .json
-            name, info = make_name(rng, 'B', 'json')
-            stim = stimuli(rng, n)
-            if rng.random() < 0.3:
-                stim[0] = 'é' + stim[0]
-            tasks, rows = [], []
-            for t in range(rng.randint(1, 5)):
-                if rng.random() < 0.3:
-                    tasks.append({'task_type': rng.choice(['info', 'survey', None]), 'name': token(rng),
-                                  'stimuli': [], 'rdm': []})
-                    continue
-                tn = token(rng)
-                if rows and rng.random() < 0.15:    # other stimuli: skipped with a warning
-                    tasks.append({'task_type': 'multiarrange', 'name': tn,
-                                  'stimuli': stimuli(rng, n) + ['extra.png'], 'rdm': utv(rng, n + 1)})
-                    continue
-                u = utv(rng, n)
-                tasks.append({'task_type': 'multiarrange', 'name': tn, 'stimuli': stim, 'rdm': u})
-                rows.append({'participant': info['participant'], 'task': tn, 'task_index': t, 'utv': u})
-            if not rows:
-                u = utv(rng, n)
-                tasks.append({'task_type': 'multiarrange', 'name': 'ma', 'stimuli': stim, 'rdm': u})
-                rows.append({'participant': info['participant'], 'task': 'ma',
-                             'task_index': len(tasks) - 1, 'utv': u})
-            yield {'kind': 'meadows_load', 'fname': name, 'tasks': tasks, 'sort': sort, 'form': 'json',
-                   'expect': {'experiment': info['experiment_name'], 'stimuli': stim, 'rows': rows}}
+        yield load_case(rng, 'mat1' if r < 0.3 else 'matN' if r < 0.65 else 'json',
+                        rng.random() < 0.6, rng.randint(2, 6))
     # --- rejected combinations
     for shape, ext, form in (('B', 'mat', 'rej_mat_multitask'), ('A', 'json', 'rej_json_single'),
                              ('C', 'json', 'rej_json_multi'), ('A', 'csv', 'rej_type')):
@@ -314,6 +338,12 @@ def feats(case, impl_res):
         n = len(case['expect']['stimuli'])
         if n == 2:
             b.append('load:two_stimuli')
+        if case['form'] == 'json':
+            if any(t['task_type'] != 'multiarrange' for t in case['tasks']):
+                b.append('load:json_skip')
+            if any(t['task_type'] == 'multiarrange' and t['stimuli'] != case['expect']['stimuli']
+                   for t in case['tasks']):
+                b.append('load:json_mismatch')
     return {'kind': 'meadows_load', 'meadows_form': case['form'], 'sort': case['sort'],
             'n_stimuli': len(case['expect']['stimuli']) if case.get('expect') else None,
             'n_rdms': len(case['expect']['rows']) if case.get('expect') else None,
@@ -323,4 +353,5 @@ def feats(case, impl_res):
 BRANCHES = ['meadows:A', 'meadows:B', 'meadows:C', 'meadows:bad', 'load:mat1', 'load:matN',
             'load:json', 'load:sort', 'load:nosort', 'load:rej_mat_multitask',
             'load:rej_json_single', 'load:rej_json_multi', 'load:rej_type',
-            'load:rej_missing_var', 'load:rej_json_structure']
+            'load:rej_missing_var', 'load:rej_json_structure', 'load:two_stimuli',
+            'load:json_skip', 'load:json_mismatch']
